@@ -520,4 +520,60 @@ theorem closure_closed (e : Env) (pool : List Nat) (fuel : Nat) (set : List Nat)
           exact Or.inr hx⟩
       omega
 
+-- ---------------------------------------------------------------- the shape of a successful `play`
+
+/-- the transactions `play` evicts from the pool -/
+def playEvict (e : Env) (s : St) (b : Block) : List Nat :=
+  closure e s.pool s.pool.length
+    ((s.pool.filter (fun i => !b.txs.contains i)).filter (fun i => conflicts e s.pool b.txs i))
+
+/-- the state after the eviction (evicted transactions undone, newest first) -/
+def playUndone (e : Env) (s : St) (b : Block) : St :=
+  (s.pool.reverse.filter (fun i => (playEvict e s b).contains i)).foldl (fun st i => undoTx e st (e.tx i)) s
+
+theorem play_ok (e : Env) (s : St) (lh : Int) (b : Block) (h : (play e s lh b).2 = .ok) :
+    ∃ s2, applyBlockTxs e lh b.prop (s.pool.filter (fun i => b.txs.contains i)) b.txs (playUndone e s b)
+        = some (s2, .ok) ∧
+      (play e s lh b).1 =
+        { s2 with pointer := b.id, irrev := nextIrrev e.window s.irrev b.height,
+                  pool := s.pool.filter (fun i => !b.txs.contains i && !(playEvict e s b).contains i) } := by
+  unfold play at h ⊢
+  by_cases h1 : b.pre ≠ some s.pointer
+  · rw [if_pos h1] at h; cases h
+  · rw [if_neg h1] at h ⊢
+    by_cases h2 : blockHasDupInput e b.txs = true
+    · rw [if_pos h2] at h; cases h
+    · rw [if_neg h2] at h ⊢
+      simp only at h ⊢
+      unfold playUndone playEvict
+      generalize applyBlockTxs e lh b.prop _ b.txs _ = res at h ⊢
+      rcases res with _ | ⟨s2, r⟩
+      · cases h
+      · cases r <;> first | exact ⟨s2, rfl, rfl⟩ | cases h
+
+theorem undoFold_lookup_none (e : Env) (ev : List Nat) (s : St) (k : Ver)
+    (hk : ∀ t ∈ ev, ∀ r ∈ (e.tx t).ins, (r.tx, r.off) ≠ k) (h : lookup s.U k = none) :
+    lookup (ev.foldl (fun st i => undoTx e st (e.tx i)) s).U k = none := by
+  induction ev generalizing s with
+  | nil => exact h
+  | cons t rest ih =>
+    simp only [List.foldl_cons]
+    apply ih _ (fun t' ht' => hk t' (List.mem_cons_of_mem _ ht'))
+    apply undoTx_lookup_none _ _ _ _ _ h
+    intro hm
+    obtain ⟨r, hr, he⟩ := List.mem_map.mp hm
+    exact hk t List.mem_cons_self r hr he
+
+theorem undoFold_frame (e : Env) (ev : List Nat) (s : St) :
+    (ev.foldl (fun st i => undoTx e st (e.tx i)) s).pointer = s.pointer ∧
+    (ev.foldl (fun st i => undoTx e st (e.tx i)) s).irrev = s.irrev ∧
+    (ev.foldl (fun st i => undoTx e st (e.tx i)) s).pool = s.pool := by
+  induction ev generalizing s with
+  | nil => exact ⟨rfl, rfl, rfl⟩
+  | cons t rest ih =>
+    simp only [List.foldl_cons]
+    obtain ⟨a1, a2, a3⟩ := ih (undoTx e s (e.tx t))
+    obtain ⟨u1, u2, u3⟩ := undoTx_frame e s (e.tx t)
+    exact ⟨a1.trans u1, a2.trans u2, a3.trans u3⟩
+
 end XV.Chain
